@@ -70,7 +70,7 @@ func isAttrGet(v ssa.Value, name string, ctxVal ssa.Value) bool {
 	if s, ok := constString(call.Call.Args[0]); !ok || s != name {
 		return false
 	}
-	id, ok := strip(call.Call.Value).(*ssa.Call)
+	id, ok := strip(rv(strip(call.Call.Value))).(*ssa.Call)
 	if !ok {
 		return false
 	}
@@ -93,7 +93,7 @@ func c04Guard(c *Ctx) {
 		if !ok || f != addrF {
 			return false
 		}
-		call, ok := b.(*ssa.Call)
+		call, ok := strip(rv(strip(b))).(*ssa.Call)
 		return ok && calleeName(call) == secPkgPath+".getTunnel" && rv(arg(call, 0)) == ssa.Value(ctxP)
 	}
 	isClientIP := func(v ssa.Value) bool { return isAttrGet(v, "clientIp", ctxP) }
@@ -237,9 +237,10 @@ func c04SourceAs(c *Ctx, rule string) {
 	// a value site: the function it is computed in, the instruction at which it is handed on
 	// (the SetAttribute call, or the helper's return), and the value
 	type valSite struct {
-		fn *ssa.Function
-		at ssa.Instruction
-		v  ssa.Value
+		fn   *ssa.Function
+		at   ssa.Instruction
+		v    ssa.Value
+		site *ssa.Call // the helper call in the middleware, when the value is computed in a helper
 	}
 	expand := func(s *ssa.Call) []valSite {
 		v := strip(s.Call.Args[1])
@@ -257,24 +258,47 @@ func c04SourceAs(c *Ctx, rule string) {
 				var out []valSite
 				for _, r := range returnsOf(h) {
 					if idx < len(r.Results) {
-						out = append(out, valSite{h, r, strip(unspill(r.Results[idx]))})
+						out = append(out, valSite{h, r, strip(unspill(r.Results[idx])), call})
 					}
 				}
 				return out
 			}
 		}
-		return []valSite{{cl, s, v}}
+		return []valSite{{cl, s, v, nil}}
 	}
 	var siteXFF, sitePeer ssa.Instruction
 	hdrSeen := false
 	for _, s := range sites {
 		for _, vs := range expand(s) {
 			hdr := hdrOf(vs.fn)
-			if hdr == nil {
+			hdrCaller := hdrOf(cl)
+			// inside a helper the header value may be a parameter that the middleware fills with it
+			var hdrParam *ssa.Parameter
+			if hdr == nil && vs.site != nil && hdrCaller != nil {
+				for j, a := range vs.site.Call.Args {
+					if strip(a) == ssa.Value(hdrCaller) && j < len(vs.fn.Params) {
+						hdrParam = vs.fn.Params[j]
+					}
+				}
+			}
+			if hdr == nil && hdrParam == nil {
 				continue
 			}
 			hdrSeen = true
-			isHdr := func(v ssa.Value) bool { return strip(v) == ssa.Value(hdr) }
+			isHdr := func(v ssa.Value) bool {
+				if hdr != nil && strip(v) == ssa.Value(hdr) {
+					return true
+				}
+				return hdrParam != nil && strip(v) == ssa.Value(hdrParam)
+			}
+			// a guard on the header may be tested in the helper, or in the middleware before the helper is called
+			guarded := func(mk func(func(ssa.Value) bool) Guard) (bool, string) {
+				ok, why := mustPass(vs.fn, vs.at, mk(isHdr))
+				if !ok && vs.site != nil && hdrCaller != nil {
+					return mustPass(cl, vs.site, mk(func(v ssa.Value) bool { return strip(v) == ssa.Value(hdrCaller) }))
+				}
+				return ok, why
+			}
 			v := vs.v
 			if a, ok := loadAddr(v); ok {
 				if ia, ok := a.(*ssa.IndexAddr); ok {
@@ -283,7 +307,7 @@ func c04SourceAs(c *Ctx, rule string) {
 					if isC && idx == 0 && isSplit && calleeName(sp) == "strings.Split" && isHdr(arg(sp, 0)) {
 						if sep, ok := constString(arg(sp, 1)); ok && sep == "," {
 							siteXFF = vs.at
-							ok2, why := mustPass(vs.fn, vs.at, GNeq(isHdr, isEmpty))
+							ok2, why := guarded(func(m func(ssa.Value) bool) Guard { return GNeq(m, isEmpty) })
 							c.Check(ok2, rule, key+" xff-site", vs.at.Pos(), "clientIp = element 0 of Split(X-Forwarded-For, \",\"), only when the header is non-empty", "XFF site "+why)
 							continue
 						}
@@ -298,7 +322,7 @@ func c04SourceAs(c *Ctx, rule string) {
 					_, f, ok := fieldLoad(strip(arg(sp, 0)))
 					if ok && f.Name() == "RemoteAddr" {
 						sitePeer = vs.at
-						ok2, why := mustPass(vs.fn, vs.at, GEq(isHdr, isEmpty))
+						ok2, why := guarded(func(m func(ssa.Value) bool) Guard { return GEq(m, isEmpty) })
 						c.Check(ok2, rule, key+" peer-site", vs.at.Pos(), "clientIp = host part of r.RemoteAddr, only when X-Forwarded-For is empty", "peer site "+why+": it can override the forwarded address")
 						continue
 					}
@@ -410,7 +434,7 @@ func c04Default(c *Ctx) {
 			case strings.HasSuffix(sf, ".init"):
 				b, isB := constBool(s.Val)
 				c.Check(isB && b, rule, "security.VerifyClientIP initial", s.Pos(), "initialised true", "package default is not true")
-			case sf == "cmd/rdpgw.main":
+			case sf == "cmd/rdpgw.main" || c.inMainScope(f):
 				p, ok := confFieldPath(s.Val)
 				c.Check(ok && p == "Security.VerifyClientIp", rule, "security.VerifyClientIP in main", s.Pos(), "set from conf.Security.VerifyClientIp", "set from something other than conf.Security.VerifyClientIp")
 			default:
